@@ -102,6 +102,8 @@ class SeqTh:
         ax([s, n, x], Implies(And(0 <= n, n <= Len(s), Has(Take(s, n), x)), Has(s, x)), Has(Take(s, n), x))  # -- lean: has_take
         ax([s, n, x], Implies(And(0 <= n, n <= Len(s), Has(Drop(s, n), x)), Has(s, x)), Has(Drop(s, n), x))  # -- lean: has_drop
         ax([s, n], Implies(And(0 <= n, n <= Len(s)), App(Take(s, n), Drop(s, n)) == s), App(Take(s, n), Drop(s, n)))  # -- lean: take_append_drop
+        ax([s, n], Implies(And(0 <= n, n < Len(s)), App(Take(s, n), One(At(s, n))) == Take(s, n + 1)), App(Take(s, n), One(At(s, n))))   # -- lean: take_succ
+        ax([s, n], Implies(And(Nodup(s), 0 <= n, n < Len(s)), Not(Has(Take(s, n), At(s, n)))), MultiPattern(Nodup(s), Has(Take(s, n), At(s, n))))  # -- lean: nodup_not_mem_take
         ax([s, m, n, x], Implies(And(m == n + 1, 0 <= n, n < Len(s)), Has(Take(s, m), x) == Or(Has(Take(s, n), x), x == At(s, n))),
            MultiPattern(Has(Take(s, m), x), Take(s, n)))                                 # -- lean: has_take_succ
         ax([s, a, b], Implies(And(0 <= a, a <= b, b <= Len(s)), Len(Slice(s, a, b)) == b - a), Slice(s, a, b))  # -- lean: len_slice
